@@ -163,7 +163,7 @@ func TestC13(t *testing.T) {
 		reps = 200
 	}
 	var runs int64
-	raceBroken := false
+	raceBroken, raceStopped := false, false
 	h.Run(c, "race", c.N(200, 2000),
 		func(t *rapid.T) RaceCase { return RaceCase{Prog: genProg(t, withString), Reps: reps} },
 		func(tc RaceCase, o *h.Obs) *h.Fail {
@@ -173,6 +173,10 @@ func TestC13(t *testing.T) {
 			}
 			if raceBroken {
 				o.Excluded = "race_worker_broken_earlier"
+				return nil
+			}
+			if raceStopped {
+				o.Excluded = "race_search_stopped_after_deadlock_under_real_locks"
 				return nil
 			}
 			out := rr.run(raceReq{Prog: tc.Prog, Reps: tc.Reps})
@@ -189,11 +193,13 @@ func TestC13(t *testing.T) {
 				o.Excluded = "race_worker_failure"
 				return nil
 			case out.timeout:
-				if bl := blockedInEnvLocks(out.stderr); len(bl) > 0 {
-					return h.Failf("C13|deadlock|real-locks", "real goroutines, real locks: the worker process made no progress for %v and its goroutine dump shows goroutines blocked acquiring the scope's mutex from inside package env:\n  %s\n%s", hangLimit, strings.Join(bl, "\n  "), progText(tc.Prog, nil))
+				if bl, all := blockedInEnvLocks(out.stderr); all {
+					// one confirmed hang is enough; every further one would cost hangLimit again
+					raceStopped = true
+					return h.Failf("C13|deadlock|real-locks", "real goroutines, real locks: the worker process made no progress for %v and its goroutine dump shows every live worker goroutine blocked acquiring a scope's mutex from inside package env:\n  %s\n%s", hangLimit, strings.Join(bl, "\n  "), progText(tc.Prog, nil))
 				}
 				raceBroken = true
-				c.Incomplete("sub-check (b): worker process gave no answer within %v and no goroutine is blocked in a lock of package env\n%s%s", hangLimit, progText(tc.Prog, nil), tailStr(out.stderr, 1500))
+				c.Incomplete("sub-check (b): worker process gave no answer within %v and its goroutine dump does not show all workers blocked in locks of package env\n%s%s", hangLimit, progText(tc.Prog, nil), tailStr(out.stderr, 1500))
 				o.Excluded = "race_worker_timeout"
 				return nil
 			case out.died:
